@@ -379,6 +379,7 @@ class SMC(Sampler):
             self._quantiles = np.concatenate((np.full((self.state['round']), None), quantiles))
         else:
             thresholds = np.concatenate((np.full((self.state['round']), None), thresholds))
+            self._quantiles = None
 
         self.objective.update(
             dict(
